@@ -541,6 +541,17 @@ func resolveLineGroups(p *load.Prog, parse *ssa.Function, sub *ssa.Call) (lineGr
 			}
 		}
 	}
+	for _, c := range su.Calls(parse) {
+		if su.CalleeIs(c.Common(), "strconv", "ParseInt") || su.CalleeIs(c.Common(), "strconv", "ParseUint") {
+			base, k, ok := su.ElemOf(c.Common().Args[0])
+			if ok && base == ssa.Value(sub) {
+				g.level = int(k)
+				if b, isK := su.ConstInt(c.Common().Args[1]); !isK || b != 10 {
+					return g, "LEVELBASE"
+				}
+			}
+		}
+	}
 	if g.level == 0 {
 		return g, "no strconv.Atoi of a submatch group found for the level"
 	}
@@ -563,6 +574,10 @@ func c01Reader(p *load.Prog, r *oblig.Run) {
 	lg, why := resolveLineGroups(p, parse, sub)
 	if why == "TRIM" {
 		r.Add("R01.a", "pointer trimming", p.Pos(parse.Pos()), "trimming of the pointer group").Fail("parseLine no longer trims exactly the leading '@' and the trailing '@ ' from the pointer group ([1:len-2] or the equivalent literal prefix/suffix removal): trimming by a character set also removes '@'/space characters that belong to the name, which the pattern admits and the writer emits")
+		return
+	}
+	if why == "LEVELBASE" {
+		r.Add("R01.a", "level base", p.Pos(parse.Pos()), "the level group is read as a decimal number").Fail("parseLine converts the level group with a base other than 10 (base 0 reads a leading 0 as octal and 0x as hexadecimal): the level pattern admits leading zeros, so '010 TAG' is read as level 8 and '08 TAG' fails to convert and silently becomes level 0 - the line is attached under the wrong parent")
 		return
 	}
 	if strings.HasPrefix(why, "VALUE:") {
